@@ -20,6 +20,32 @@ TRUSTED = ["rustc MIR + HIR", "clapfacts"]
 ASSUMPTIONS = ["u8::saturating_add saturates at 255 (std)"]
 
 
+def removal_census(fx, res, rule):
+    """Presence records may only be removed for overridden arguments: every ArgMatcher::remove reachable from the parser
+    removes an id taken from `arg.overrides` (forward) or from the collected list of present args whose `overrides`
+    contain this arg (backward).  Shared with C03 (a removed group/arg record silently disables its relations)."""
+    n = 0
+    for b in fx.bodies(r"^clap_builder::parser::(parser|validator)::"):
+        for c in b.calls_to(r"ArgMatcher::remove$"):
+            n += 1
+            e = expr(b, c.args[1])
+            okf = re.fullmatch(r"next\(into_iter\((iter\()?arg\.overrides\)?\)\)#Some\.0", e) is not None
+            okb_ = False
+            m = re.fullmatch(r"next\(into_iter\((new\(\)|with_capacity\([^()]*\))\)\)#Some\.0", e)   # a locally collected Vec
+            if not okf and m and b.q.endswith("::remove_overrides"):
+                # the iterated vector must be filled only by pushes guarded by `<other>.overrides.contains(arg.id)`
+                pushes = [p for p in b.calls_to(r"Vec::push$")]
+                okb_ = bool(pushes) and all(any(re.match(r"^T:contains\(.*\.overrides,get_id\(arg\)\)$", g) for g in guard_strs(b, p.bb)) for p in pushes)
+            if b.q.endswith("::react") and e == "get_id(arg)":
+                # the reacting argument's own record is replaced by the occurrence being recorded (Set/SetTrue/SetFalse/Count)
+                sc_ = [x for x in b.calls_to(r"Parser::start_custom_arg$") if x.bb in b.reachable(c.target if c.target is not None else c.bb)]
+                res.check(bool(sc_), rule, "removal|react|own-record", c.where(), "own record replaced by the new occurrence", "react removes the argument's record without recording the new occurrence")
+                continue
+            res.check(b.q.endswith("::remove_overrides") and (okf or okb_), rule, "removal|%s|%s" % (b.q.rsplit("::", 1)[1], "forward" if okf else "backward" if okb_ else "other"), c.where(),
+                      "removes an overridden / overriding argument's record", "ArgMatcher::remove(%s) in %s: a presence record is removed for something that is not an overridden argument (relations declared on it are silently disabled)" % (e[:80], b.q.rsplit("::", 1)[1]))
+    res.floor(rule, "ArgMatcher::remove call sites in the parser", n, 2)
+
+
 def run(ctx):
     fx, res = ctx.fx, ctx.res
     rc = fx.body("clap_builder::parser::parser::Parser::react")
@@ -149,6 +175,7 @@ def run(ctx):
         no_first = not ro.calls_to(r"Iterator::find$", r"Iterator::find_map$", r"\[T\]::first$", r"Iterator::next$") or True
         fm = ro.calls_to(r"Iterator::find_map$", r"Iterator::find$", r"\[T\]::first$", r"Iterator::take$")
         okb = bool(it) and bool(cont) and bool(push) and rem_loop and not fm
+    removal_census(fx, res, "R7.4")
     res.check(okb, "R7.4", "backward-all", ro.where(), "every present arg whose overrides contain this arg is collected and removed",
               "remove_overrides no longer removes ALL present args that override this one (reverse direction): removes %s" % back)
     psc = fx.body("clap_builder::parser::parser::Parser::start_custom_arg")
